@@ -1137,6 +1137,11 @@ def _check_chain(c, mod, f, ex, ps, heads, ks, kind, direction):
                 name = "tail%d" % r
                 if r:
                     want_so = repr(Lf({dv[0][0]: 4}))
+                    if in_cur[2] != want_so or out_cur[2] != want_so:
+                        # only the symbolic base of the addresses is compared here (the constant offsets are checked with the bytes below): a
+                        # different base - the left-over bytes addressed as length - left-over + i, say - is the same place only by
+                        # n = 4*(n/4) + n%4, which this comparison of terms does not make
+                        raise Broken("%s: the left-over bytes are addressed from another base (%s / %s) than the number of full words (%s): not decided" % (f.name, in_cur[2], out_cur[2], want_so))
                     c.ob(in_cur[2] == want_so and out_cur[2] == want_so, "ADVANCE", "%s-position" % name, "the left-over bytes are read and written right after the full words",
                          "the left-over bytes are read at offset %s and written at offset %s, expected %s for both" % (in_cur[2], out_cur[2], want_so))
                     n += 1
